@@ -456,6 +456,10 @@ def gen_spec(r, scenario: str, big: bool) -> dict:
             v["m2"] = 1001 + 4 * i  # overwritten: "the value LAST stored"
     for j, s in enumerate(shared):
         s["m1"], s["m2"] = 900000 + 2 * j, 900001 + 2 * j
+        s["echo"] = r.random() < 0.4
+    for v in vars_:
+        if v["kind"] == "dynonly":
+            v["echo"] = r.random() < 0.5
     expect = {"fits": "approve", "fpcap": "approve", "toomany": "toomany", "dup": "dup"}[scenario]
     return {"version": version, "scratch_opt": scratch_opt, "fp": fp, "nsub": nsub, "chain": chain, "vars": vars_,
             "shared": shared, "expect": expect, "scenario": scenario, "shared_options": r.random() < 0.5}
@@ -504,6 +508,11 @@ def build_and_compile(spec: dict):
         if k == "dyn":
             return [o[1].store(pt.Int(v["m1"] + 3)), o[0].set_index(o[1]), o[0].store(m)]
         if k == "dynonly":
+            if v.get("echo"):
+                # the target is stored and read back at once (a pair the optimiser would cancel on an unprotected slot); the value is
+                # then observed through the cursor only
+                return [o[1].store(pt.Int(v["m1"] + 3)), pt.Pop(o[1].load()), o[0].set_index(o[1]),
+                        pt.Assert(o[0].load() == pt.Int(v["m1"] + 3)), o[0].store(m)]
             return [o[0].set_index(o[1]), o[0].store(m)]
         if k == "dyn2":
             return [o[1].store(pt.Int(v["m1"] + 3)), o[2].store(pt.Int(v["m1"] + 3)),
@@ -558,6 +567,8 @@ def build_and_compile(spec: dict):
         for so, s in zip(shared_objs, S):
             if rt == 0:
                 seq.append(so.store(pt.Int(s["m1"])))
+                if s.get("echo"):
+                    seq.append(pt.Pop(so.load()))      # main's only load of it: what the subroutine reads is main's store
             elif s["sub"] == rt:
                 seq += [pt.Assert(so.load() == pt.Int(s["m1"])), so.store(pt.Int(s["m2"]))]
         for i, v in mine:
@@ -574,7 +585,8 @@ def build_and_compile(spec: dict):
             seq += checks(v, objs[i])
         if rt == 0:
             for so, s in zip(shared_objs, S):
-                seq.append(pt.Assert(so.load() == pt.Int(s["m2"])))
+                if not s.get("echo"):
+                    seq.append(pt.Assert(so.load() == pt.Int(s["m2"])))
                 if s["slot"] is not None:
                     seq.append(pt.Assert(so.index() == pt.Int(s["slot"])))
             seq.append(pt.Approve())
@@ -732,7 +744,7 @@ def expected_scratch_count(spec: dict, d: Driver):
     for x in spec["vars"]:
         if x["kind"] == "abi" and x["home"] != 0 and fp_on:
             per_sub_abi[x["home"]] = per_sub_abi.get(x["home"], 0) + 1
-        elif x["kind"] == "dynonly":
+        elif x["kind"] == "dynonly" and not x.get("echo"):
             n += 1      # the target never appears in a load/store line (only as `int k`); its cell is checked by execution
         else:
             n += SLOT_COST[x["kind"]]
